@@ -96,8 +96,8 @@ type ledgerEntry struct {
 	// CallersParamNonNeg: every call site (in the closure) of the function containing the obligation passes,
 	// for this parameter (1-based; 0 = unused), a constant >= 0 or the caller's own same-named method's
 	// parameter plus a non-negative constant (induction over the call chain)
-	CallersParamNonNeg int `json:"callers_param_nonneg,omitempty"`
-	Assume   bool     `json:"assumption,omitempty"`
+	CallersParamNonNeg int  `json:"callers_param_nonneg,omitempty"`
+	Assume             bool `json:"assumption,omitempty"`
 	// SchemaSlots: decoder (or encoder) name -> slot tokens that must occur in its CURRENT E2 schema, e.g.
 	// {"dhcpv6.RelayMessageFromBytes": ["16:PeerAddr"]}: the field is filled by a plain 16-byte read
 	SchemaSlots map[string][]string `json:"schema_slots,omitempty"`
@@ -174,8 +174,9 @@ type guardFact struct {
 }
 
 type guardCache struct {
-	c     *Ctx
-	facts map[*ssa.BasicBlock][]guardFact
+	c         *Ctx
+	facts     map[*ssa.BasicBlock][]guardFact
+	atomCache map[*ssa.Function][]atomFact
 }
 
 func newGuardCache(c *Ctx) *guardCache {
@@ -188,26 +189,28 @@ func (g *guardCache) of(b *ssa.BasicBlock) []guardFact {
 	}
 	fn := b.Parent()
 	var out []guardFact
-	for _, d := range fn.Blocks {
-		iff := ifOf(d)
-		if iff == nil || d == b && false {
-			continue
-		}
-		if !d.Dominates(b) && d != b {
-			// a non-dominating test can still be required (diamonds) but only if b is unreachable without it
-		}
-		for pol := 0; pol < 2; pol++ {
-			e := Edge{d, d.Succs[pol]}
-			if d.Succs[0] == d.Succs[1] {
-				continue
-			}
-			if mustPassEdges(fn, b, e) {
-				out = append(out, guardFact{cond: iff.Cond, pol: pol == 0, str: fmt.Sprintf("%s=%v", g.c.Sx().Of(iff.Cond).String(), pol == 0)})
-			}
+	// every atomic condition that holds on all paths to b in the split graph (sgraph.go): for nested ifs this
+	// is the classical "every path takes that edge"; for `a && b` materialised as a φ it also yields a and b
+	for _, a := range g.atoms(fn) {
+		a := a
+		if mustPassAtoms(fn, b, func(as []atomFact) bool { return hasAtom(as, a.v, a.val) }) {
+			out = append(out, guardFact{cond: a.v, pol: a.val, str: fmt.Sprintf("%s=%v", g.c.Sx().Of(a.v).String(), a.val)})
 		}
 	}
 	g.facts[b] = out
 	return out
+}
+
+func (g *guardCache) atoms(fn *ssa.Function) []atomFact {
+	if g.atomCache == nil {
+		g.atomCache = map[*ssa.Function][]atomFact{}
+	}
+	if a, ok := g.atomCache[fn]; ok {
+		return a
+	}
+	a := atomsIn(fn)
+	g.atomCache[fn] = a
+	return a
 }
 
 // intConst returns the int64 value of a constant operand
@@ -307,18 +310,18 @@ func (g *guardCache) lenBounds(b *ssa.BasicBlock, isLenOf func(ssa.Value) bool) 
 // obligations
 
 type e4Result struct {
-	funcs   []*ssa.Function
+	funcs                                                        []*ssa.Function
 	nBounds, nAssert, nPanic, nDiv, nSize, nNilMap, nNil, nLoops int
 }
 
 type e4Engine struct {
-	c      *Ctx
-	bce    *bceInfo
-	ledger map[string]*ledgerEntry
-	used   map[string]bool
-	gc     *guardCache
-	funcs  []*ssa.Function
-	rule   string // clause id prefix, e.g. C03-K1
+	c            *Ctx
+	bce          *bceInfo
+	ledger       map[string]*ledgerEntry
+	used         map[string]bool
+	gc           *guardCache
+	funcs        []*ssa.Function
+	rule         string // clause id prefix, e.g. C03-K1
 	ledgerPrefix string // prefix under which ledger keys are stored (defaults to rule)
 }
 
@@ -345,9 +348,23 @@ func shortDesc(v ssa.Value, d int) string {
 	}
 	switch x := v.(type) {
 	case *ssa.Parameter:
-		return x.Name()
+		// by position, not by name: renaming a parameter or a local must not change an obligation's key
+		if fn := x.Parent(); fn != nil {
+			for i, p := range fn.Params {
+				if p == x {
+					if i == 0 && fn.Signature.Recv() != nil {
+						return "recv"
+					}
+					if fn.Signature.Recv() != nil {
+						i--
+					}
+					return "arg" + strconv.Itoa(i)
+				}
+			}
+		}
+		return "arg"
 	case *ssa.FreeVar:
-		return x.Name()
+		return "captured(" + types.TypeString(x.Type(), shortQual) + ")"
 	case *ssa.Const:
 		return constText(x)
 	case *ssa.Global:
@@ -398,14 +415,11 @@ func shortDesc(v ssa.Value, d int) string {
 		}
 		return n + "()"
 	case *ssa.Alloc:
-		if x.Comment != "" {
-			return x.Comment
+		if x.Comment == "varargs" || x.Comment == "slicelit" || x.Comment == "complit" || x.Comment == "" {
+			return "new " + types.TypeString(x.Type().(*types.Pointer).Elem(), shortQual)
 		}
-		return "new " + types.TypeString(x.Type().(*types.Pointer).Elem(), shortQual)
+		return "var " + types.TypeString(x.Type().(*types.Pointer).Elem(), shortQual)
 	case *ssa.Phi:
-		if x.Comment != "" {
-			return x.Comment
-		}
 		return "φ"
 	case *ssa.BinOp:
 		return "(" + shortDesc(x.X, d-1) + x.Op.String() + shortDesc(x.Y, d-1) + ")"
